@@ -6,6 +6,7 @@ import (
 	"bytes"
 	"encoding/json"
 	"fmt"
+	"os"
 	"reflect"
 	"strings"
 	"testing"
@@ -239,6 +240,23 @@ func checkSeq(rec *hx.Recorder, c seqCase) (string, bool) {
 	}
 	if msg, ok := checkAccessors(f, fit.FileType(c.FileType)); !ok {
 		return msg + "\nstream: " + text, false
+	}
+	// where messages are put does not depend on the concrete type of the
+	// reader (one reader kind per case, chosen by the case's content)
+	kinds := gen.ReaderKinds(os.Getenv("VERIF_BUILD"))
+	kind := kinds[(len(c.Items)+c.FileType)%len(kinds)]
+	if r, _, done, oerr := kind.Open(s.Bytes()); oerr == nil {
+		var fk *fit.File
+		var kerr error
+		p := oracle.Catch(func() { fk, kerr = fit.Decode(r) })
+		done()
+		if p != nil || kerr != nil {
+			return fmt.Sprintf("Decode through a %s: panic=%v err=%v\nstream: %s", kind.Name, p, kerr, text), false
+		}
+		o := prof.DigestOpts{}
+		if d1, d2 := prof.Digest(f, o), prof.Digest(fk, o); d1 != d2 {
+			return fmt.Sprintf("Decode through a %s gives a different File than through a plain reader\nplain:\n%s\n%s:\n%s\nstream: %s", kind.Name, d1, kind.Name, d2, text), false
+		}
 	}
 	// metamorphic: removing every message the file type does not hold
 	// leaves the digest unchanged
